@@ -1029,7 +1029,19 @@ func c20OpBody(sc *C20OpScript, res *Result) {
 			fail("operator_no_fixpoint", "a fresh deployment of the final configuration does not reach a fixpoint in 6 rounds")
 		}
 	} else if d := dumpDiff(withoutCRDs(final), withoutCRDs(operandView(fw.dump()))); len(d) > 0 {
-		fail("operator_history_dependent", "the operand objects differ from a fresh deployment of the same configuration (first = this history, second = fresh): %v", d)
+		rule := "operator_history_dependent"
+		onlyPullSecrets := true
+		for _, x := range d {
+			if !strings.Contains(x, "ServiceAccount/kai-resource-reservation/") || !strings.Contains(x, ".imagePullSecrets") {
+				onlyPullSecrets = false
+			}
+		}
+		if onlyPullSecrets {
+			// the resource-reservation ServiceAccount merges the configured pull secrets into what the object already
+			// carries and never removes one (open finding)
+			rule += "_reservation_sa_pull_secrets"
+		}
+		fail(rule, "the operand objects differ from a fresh deployment of the same configuration (first = this history, second = fresh): %v", d)
 	}
 	res.Probes["c20op_fresh_compared"]++
 	res.NonTrivial = w.writes > 0
